@@ -1051,7 +1051,7 @@ namespace awkward {
         parameters_,
         mask_,
         content_.get()->rpad(target, posaxis, depth),
-        valid_when_);
+        valid_when_).get()->simplify_optiontype();
     }
   }
 
@@ -1086,7 +1086,7 @@ namespace awkward {
         parameters_,
         mask_,
         content_.get()->rpad_and_clip(target, posaxis, depth),
-        valid_when_);
+        valid_when_).get()->simplify_optiontype();
     }
   }
 
